@@ -89,8 +89,22 @@ fn gen_arbitrary_http(t: &mut Tape, apps: &[AppSpec], p: &Profile) -> HttpSpec {
             status: 100 + t.choose(500) as u16,
             retry_after: t.vec_of(2, |t| gen_retry_after_value(t, true)),
             retry_after_name_case: t.choose(3) as u8,
-            body: BodySpec::Raw(RawBody::Arbitrary(match t.choose(4) {
+            body: BodySpec::Raw(RawBody::Arbitrary(match t.choose(5) {
                 0 => t.bytes(40),
+                4 => {
+                    // the anti-XSSI guard (possibly with another line ending) and a document, cut anywhere - most often
+                    // within or right after the guard
+                    let d = gen_doc(t, apps, p);
+                    let mut b: Vec<u8> = match t.choose(3) {
+                        0 => b")]}'\n".to_vec(),
+                        1 => b")]}'\r\n".to_vec(),
+                        _ => b")]}'".to_vec(),
+                    };
+                    b.extend(crate::jsongen::to_bytes(&crate::respgen::render(&d, 0), 0, 0));
+                    let keep = if t.chance(2, 3) { t.choose(9) } else { t.choose(b.len() + 1) };
+                    b.truncate(keep);
+                    b
+                }
                 1 => {
                     // a valid document with bytes flipped
                     let d = gen_doc(t, apps, p);
